@@ -15,6 +15,8 @@ FORMATS = ["json", "json5", "yaml", "xml", "html", "plist"]
 # printf / str.format / shell metacharacters, blanks, non-ASCII)
 STEMS = ["bad", "my%20file", "bad", "100%", "a%sb", "bad", "{0}", "{}x", "na me", "bad", "d\u00e9j\u00e0", "a%%b", "$HOME", "semi;colon",
          "bad", "it's", "%(name)s", "back\\slash", "-dash"]
+LOGOPTS = [["--no-status"], ["--no-status"], ["--quiet"], ["--no-status", "--log-level", "CRITICAL"], ["--no-status", "--debug"],
+           ["--no-status", "--log-level", "ERROR"], ["--no-status"], ["--no-status", "--log-level", "INFO"], ["--no-status", "--log-level", "WARNING"]]
 DELIMS = {
     "json": '{}[],:"', "json5": '{}[],:"\'/', "yaml": ":-[]{},\"'\n#&*!|>", "xml": "<>/=\"&;", "html": "<>/=\"&;",
     "plist": "<>/=\"&;",
@@ -118,8 +120,10 @@ def run():
                     f, g = (path, good) if pos == "from" else (good, path)
                     cfg = _cli.base_cfg(fromExt=fmt, toExt=fmt,
                                         fromValid=[] if pos == "from" else [fmt], toValid=[fmt] if pos == "from" else [])
-                    jobs.append({"argv": [f, g, "--no-status", "--no-color"], "from": f, "to": g, "cfg": cfg,
-                                 "meta": {"format": fmt, "doc": di, "corruption": name, "position": pos, "stem": stem,
+                    # the message is owed under every logging / status option (quiet, log levels, debug), not only the default
+                    extra = LOGOPTS[len(jobs) % len(LOGOPTS)]
+                    jobs.append({"argv": [f, g, "--no-color"] + extra, "from": f, "to": g, "cfg": cfg,
+                                 "meta": {"format": fmt, "doc": di, "corruption": name, "position": pos, "stem": stem, "logopts": extra,
                                           "content": bad.decode("latin-1")[:400]}})
     # both files malformed at once - the same bytes twice (a copy, or the very same path) - in every output mode: nothing
     # about the pair (e.g. "identical, so there is nothing to report") may come before parsing
@@ -146,9 +150,11 @@ def run():
         if v["step"]:
             exc = rec["exc"].split(":")[0] if rec["exc"] else ""
             sig = {"clause": v["clause"], "format": m["format"], "exc": exc, "where": rec.get("where", "")}
-            chk.violation(sig, {"format": m["format"], "content": m["content"], "position": m["position"], "stem": m["stem"]},
-                          "%s file (%s, as %s file): %s; rc=%s exc=%s stderr=%r" % (
-                              m["format"], m["corruption"], m["position"], v["clause"], rec["rc"], rec["exc"], rec["err"][:120]))
+            chk.violation(sig, {"format": m["format"], "content": m["content"], "position": m["position"], "stem": m["stem"],
+                                "logopts": m.get("logopts", ["--no-status"])},
+                          "%s file (%s, as %s file, options %s): %s; rc=%s exc=%s stderr=%r" % (
+                              m["format"], m["corruption"], m["position"], " ".join(m.get("logopts", [])), v["clause"], rec["rc"], rec["exc"],
+                              rec["err"][:120]))
     for i in (0, len(jobs) // 2, len(jobs) - 1):
         chk.sample({"format": jobs[i]["meta"]["format"], "corruption": jobs[i]["meta"]["corruption"],
                     "position": jobs[i]["meta"]["position"], "content": jobs[i]["meta"]["content"][:120],
@@ -184,7 +190,7 @@ def replay(path):
     f, g = (bad, good) if rp["position"] == "from" else (good, bad)
     cfg = _cli.base_cfg(fromExt=fmt, toExt=fmt, fromValid=[] if rp["position"] == "from" else [fmt],
                         toValid=[fmt] if rp["position"] == "from" else [])
-    recs = _cli.execute([{"argv": [f, g, "--no-status", "--no-color"], "from": f, "to": g, "cfg": cfg}])
+    recs = _cli.execute([{"argv": [f, g, "--no-color"] + list(rp.get("logopts", ["--no-status"])), "from": f, "to": g, "cfg": cfg}])
     errs, st = _cli.validate(recs)
     chk.add_trace_stats(st, "CliTrace", 1)
     chk.count("a")
